@@ -241,9 +241,9 @@ class Ctx:
         r = sh(["lake", "env", "lean", f], cwd=LEAN)
         out = r.stdout + r.stderr
         res, problems = {}, []
-        for m in re.finditer(r"'([^']+)' depends on axioms: \[([^\]]*)\]", out, flags=re.S):
+        for m in re.finditer(r"'(\S+?)' depends on axioms: \[([^\]]*)\]", out, flags=re.S):
             res[m.group(1)] = [a.strip() for a in m.group(2).replace("\n", " ").split(",") if a.strip()]
-        for m in re.finditer(r"'([^']+)' does not depend on any axioms", out):
+        for m in re.finditer(r"'(\S+?)' does not depend on any axioms", out):
             res[m.group(1)] = []
         for n in names:
             if n not in res:
